@@ -159,8 +159,9 @@ def vanished_names(model, live_fi, ref_fi):
     hierarchy): the anchor was renamed or removed, so a mismatch is not
     evidence of a behavioural difference."""
     import re as _re
-    if not ref_fi.params:
-        return []
+    if not ref_fi.params or ref_fi.cls is None or isinstance(
+            ref_fi.cls, _FakeClass) or live_fi.cls is None:
+        return []   # only methods have a `self` whose attributes are anchors
     selfn = ref_fi.params[0]
     names = set()
     for n in ast.walk(ref_fi.node):
